@@ -198,7 +198,7 @@ class Contains(KSBase):
 class GetItem(KSBase):
     """s[x]: the stored item x resolves to (as a key first, then as an item by its key); else KeyError"""
     qual = KS + ".__getitem__"
-    raises = {"KeyError": "exc_missing", "TypeError": "exc_type", "*": "exc_key"}
+    raises = {"KeyError": "exc_missing", "*": "exc_key"}
 
     def modifies(self, c):
         return []
@@ -217,16 +217,15 @@ class GetItem(KSBase):
         st = c.pre
         v = c.key
         has, dv, sz = maparr(st, c.self)
-        return [("why", z3.And(z3.Not(z3.And(hashable(v), z3.Select(has, kn(v)))), z3.Not(KR(st, c.self, v)),
-                               z3.Not(z3.Select(has, kn(K(st, c.self, v))))))]
-
-    def exc_type(self, c):
-        st = c.pre
-        v = c.key
-        return [("why", z3.Or(KR(st, c.self, v), z3.Not(hashable(K(st, c.self, v)))))]
+        # absent as a key, and as an item: the key function cannot digest it (TypeError), or its key is unhashable or not present
+        return [("why", z3.And(z3.Not(z3.And(hashable(v), z3.Select(has, kn(v)))),
+                               z3.Or(swallowed(st, c.self, v),
+                                     z3.And(z3.Not(KR(st, c.self, v)),
+                                            z3.Or(z3.Not(hashable(K(st, c.self, v))), z3.Not(z3.Select(has, kn(K(st, c.self, v)))))))))]
 
     def exc_key(self, c):
-        return [("why", KR(c.pre, c.self, c.key))]
+        # only what the key function raises other than a TypeError gets out
+        return [("why", z3.And(KR(c.pre, c.self, c.key), z3.Not(swallowed(c.pre, c.self, c.key))))]
 
 
 @register
